@@ -188,6 +188,81 @@ def _check_rejects(case):
     return 1, "rejected", (which,), []
 
 
+# ------------------------------------------------------------------ the size axis: long recordings
+def _big_samples(n, width):
+    return [((i * 37) % 251) - 125 for i in range(n)] if width == 1 else [((i * 7919) % 65521) - 32760 for i in range(n)]
+
+
+def _big_wavfile(width, rate, n):
+    fn = os.path.join(scratch_dir(), f"c17-big-{width}-{rate}-{n}.wav")
+    if not os.path.exists(fn):
+        W.write_riff(fn, _big_samples(n, width), width, rate)
+    return fn
+
+
+def _check_large(case):
+    """boundaries on sample positions of a LONG recording (stretches longer than the usual block sizes): exact samples"""
+    width, rate, n, kind, ivs, repl = case
+    fn = _big_wavfile(width, rate, n)
+    s = _big_samples(n, width)
+    L = [(a / rate, b / rate) for a, b in ivs]
+    tag = f"width={width} rate={rate} {n} samples, {kind} intervals (in samples) {ivs}, replacement={repl}"
+    viols = []
+    if kind == "extract":
+        out = os.path.join(scratch_dir(), "c17-big-extract.wav")
+        a, b = ivs[0]
+        st, r, _ = call(audio.extractSubwav, fn, out, a / rate, b / rate)
+        if st == "exc":
+            return 1, "X", None, [Viol("extract-raised:" + type(r).__name__, f"extractSubwav {tag}: {r!r}")]
+        info = W.read_riff(out)
+        if info["samples"] != s[a:b]:
+            viols.append(Viol("extract-content", f"extractSubwav {tag}: the file holds {len(info['samples'])} samples, expected the {b - a} source samples"))
+        return 1, "ok", (width, n, kind, len(ivs)), viols
+    if kind == "query":
+        a, b = ivs[0]
+        st, q, _ = call(audio.QueryWav, fn)
+        st, got, _ = call(q.getSamples, a / rate, b / rate)
+        try:
+            q.audiofile.close()
+        except Exception:
+            pass
+        if st == "exc" or list(got) != s[a:b]:
+            viols.append(Viol("querywav-long-stretch", f"QueryWav.getSamples {tag}: {len(got) if st != 'exc' else got!r} samples, expected {b - a}"))
+        return 1, "ok", (width, n, kind, 1), viols
+    gen = audio.AudioGenerator(width, rate)
+    rf = gen.generateSilence if repl == "silence" else None
+    af = wave.open(fn, "r")
+    try:
+        st, fr, _ = call(audio.readFramesAtTimes, af, L if kind == "keep" else None, L if kind == "delete" else None, rf)
+    finally:
+        af.close()
+    if st == "exc":
+        return 1, "X", None, [Viol("read-raised:" + type(fr).__name__, f"readFramesAtTimes {tag}: {fr!r}")]
+    out = W.unpack(fr, width) if len(fr) % width == 0 else None
+    inside = [False] * n
+    for a, b in ivs:
+        for i in range(a, b):
+            inside[i] = True
+    keep = inside if kind == "keep" else [not x for x in inside]
+    exp = [x if k else 0 for x, k in zip(s, keep)] if rf else [x for x, k in zip(s, keep) if k]
+    if out != exp:
+        viols.append(Viol("read-content", f"readFramesAtTimes {tag}: {len(out) if out is not None else 'misaligned'} samples returned, expected {len(exp)}"
+                                          + ("" if out is None or len(out) != len(exp) else f"; first difference at output index {next(i for i, (x, y) in enumerate(zip(out, exp)) if x != y)}")))
+    return 1, "ok", (width, n, kind, len(ivs), repl), viols
+
+
+def _large_cases(quick):
+    for width, rate in ((2, 8000), (4, 8000), (1, 8000)) + (() if quick else ((2, 44100),)):
+        for n in ((70000,) if quick else (5000, 70000, 140000)):
+            h = n // 2
+            for ivs in (((0, n),), ((1, n - 1),), ((0, 66000 if n > 66000 else n - 7),), ((1000, n),), ((0, 10), (h, n)), ((0, h), (h, n)), ((10, 20), (n - 30, n - 5))):
+                for kind in ("keep", "delete"):
+                    for repl in (None, "silence"):
+                        yield (width, rate, n, kind, ivs, repl)
+                yield (width, rate, n, "extract", ivs[-1:], None)
+                yield (width, rate, n, "query", ivs[-1:], None)
+
+
 def _check_extract(case):
     width, rate, a3, b3 = case  # positions in thirds of a sample
     fn = _wavfile(width, rate)
@@ -397,6 +472,10 @@ def parts(tier):
                        "samples, original length and positions with replacement; off-grid: contiguous runs whose ends are floor or ceil "
                        "of the exact positions; lists of 2-3 intervals also in descending / rotated listing order (same result as in time order)" % (len(combos), GRIDPOS),
                   bounds={"recording_samples": N, "max_intervals": 3}),
+        InputPart("long-recordings", lambda: _large_cases(quick), _check_large,
+                  rule="recordings of 70000 samples (thorough also 5000, 140000; widths 1/2/4) x 7 interval lists on sample positions whose kept or dropped "
+                       "stretches are longer than 2**16 samples (whole file, all but the edges, halves, a long tail) x keep/delete x {none, silence}; "
+                       "extractSubwav and QueryWav.getSamples over the same stretches: exact samples", bounds={"samples": 70000}, chunk=1),
         InputPart("rejections", gen_rej, _check_rejects,
                   rule="both lists at once / times beyond the recording must raise ArgumentError", bounds={}),
         InputPart("extractSubwav", gen_extract, _check_extract,
